@@ -267,7 +267,17 @@ def optimize_cases(draw, kind, fault_iters=6):
         case["con"] = None  # a total of zero cannot be redistributed (division by the total): outside the domain
     zero_progs = sorted(set(r["prog"] for r in rows if r["cur"] == 0))
     case["meas"] = _measurables(draw, c, s, min(years), zero_progs)  # mostly after the first adjusted year, so that the objective can respond
-    case["budget"] = _budget(draw, small=(fault_iters if kind == "optimize-fault" else 0))
+    case["budget"] = _budget(draw, small=(fault_iters if kind == "optimize-fault" else (8 if kind == "optimize-sequence" else 0)))
+    if kind == "optimize-sequence":
+        # the same Optimization is used again with other instructions: scaled allocation (budget scenarios) or another allocation altogether;
+        # limits that make sense for every starting point: relative ones, or [0, inf)
+        for a in adj:
+            if a["limit"] == "abs":
+                a["lower"], a["upper"] = [0.0] * len(a["t"]), ["inf"] * len(a["t"])
+        steps = []
+        for _ in range(draw(st.sampled_from([1, 1, 2]))):
+            steps.append({"scale": draw(st.sampled_from([3.0, 2.0, 0.5, 1.5, 1.0]))} if not _one_in(draw, 4) else {"alloc": _alloc(draw, c, start_year)})
+        case["steps"] = steps
     case["randseed"] = draw(st.integers(0, 2**31 - 1))
     if _one_in(draw, 4):
         case["stepsize"] = draw(st.sampled_from([0.3, 0.5, 0.05]))
@@ -388,6 +398,8 @@ def strategy(tier):
         optimize_cases("optimize"),
         optimize_cases("optimize-fault", k),
         optimize_cases("optimize-fault", k),
+        optimize_cases("optimize-sequence"),
+        optimize_cases("optimize-sequence"),
         calibrate_cases("calibrate"),
         calibrate_cases("calibrate"),
         calibrate_cases("calibrate-fault", k),
@@ -520,8 +532,8 @@ def _close(a, b):
 # --------------------------------------------------------------------------- optimize / optimize-fault / unresolvable
 
 
-def _run_optimize(at, case, P, ps, pg, inst, meas, fail_at=None, record=True):
-    opt, optim_args = _build_optimization(at, case, meas, P.settings.tvec)
+def _run_optimize(at, case, P, ps, pg, inst, meas, fail_at=None, record=True, reuse=None):
+    opt, optim_args = reuse if reuse is not None else _build_optimization(at, case, meas, P.settings.tvec)
     flags = []
 
     def rec(model):
@@ -549,7 +561,8 @@ def _alloc_table(inst):
     return {k: dict(zip([float(t) for t in ts.t], [float(v) for v in ts.vals])) for k, ts in inst.alloc.items()}
 
 
-def _check_optimize(case):
+def _check_optimize(case, shared=None):
+    """shared (optimize-sequence): {'step': i, 'opt': (Optimization, optim_args) built at step 0 and used again by every later call, 'meas': specs with the thresholds baked into those objects}"""
     at = H.at_mod()
     kind = case["kind"]
     c = H.catalogue()[case["model"]]
@@ -570,11 +583,14 @@ def _check_optimize(case):
     # thresholds of hard targets are given relative to the value at the caller's point
     base = P.run_sim(ps, pg, inst, store_results=False)
     meas = []
-    for m in case["meas"]:
+    for j, m in enumerate(case["meas"]):
         m = dict(m)
         labels.append("measurable:%s/%s/%s%s" % (m["cls"], _qkind(c, m["name"]), "year" if "idx" in m["t"] else "period", "/pops" if m.get("pops") else ""))
         if m["cls"] in ("atmost", "atleast"):
-            m["threshold"] = float(m["thr"]) * H.own_quantity(base.model, m["name"], m["t"], m.get("pops"))
+            if shared is not None and shared.get("meas"):
+                m["threshold"] = shared["meas"][j]["threshold"]  # absolute thresholds live in the measurable objects that are used again
+            else:
+                m["threshold"] = float(m["thr"]) * H.own_quantity(base.model, m["name"], m["t"], m.get("pops"))
         elif m["cls"] in ("incby", "decby"):
             m["base"] = H.own_quantity(base.model, m["name"], m["t"], m.get("pops"))  # the value under the caller's original instructions
             if m["base"] == 0:
@@ -588,8 +604,14 @@ def _check_optimize(case):
     # ---- the initial values and bounds the optimiser starts from: per (program, year) the spend of the caller's instructions in THAT year
     if len(set(r["cur"] for r in rows)) > 1 and any(sum(1 for r in rows if r["prog"] == q["prog"]) > 1 and any(r["cur"] != q["cur"] for r in rows if r["prog"] == q["prog"]) for q in rows):
         labels.append("start-spend-differs-between-adjusted-years")
+    reuse = None
+    if shared is not None:
+        if shared.get("opt") is None:
+            shared["opt"] = _build_optimization(at, case, meas, tvec)
+            shared["meas"] = meas
+        reuse = shared["opt"]  # the very same Optimization / Adjustment / Measurable objects in every call of the sequence
     try:
-        x0, xmin, xmax = _build_optimization(at, case, meas, tvec)[0].get_initialization(pg, inst)
+        x0, xmin, xmax = (reuse or _build_optimization(at, case, meas, tvec))[0].get_initialization(pg, inst)
         got_invalid = False
     except at.InvalidInitialConditions:
         got_invalid = True
@@ -601,7 +623,7 @@ def _check_optimize(case):
                 if not _close(float(got), exp):
                     raise Violation(ID, "initialization/values-differ-from-instructions", "%s of %s in %r is %r, the caller's instructions give %r (spend in that year %r); %s" % (nm, r["prog"], r["t"], float(got), exp, r["cur"], desc))
     _state_check(snap0, P, objs, "after get_initialization", desc)
-    ref = _run_optimize(at, case, P, ps, pg, inst, meas)
+    ref = _run_optimize(at, case, P, ps, pg, inst, meas, reuse=reuse)
     n_ref = ref["n"]
     phase = "after %s" % ref["outcome"]
     _state_check(snap0, P, objs, phase, desc)
@@ -739,6 +761,13 @@ def _check_optimize(case):
         labels.append("end:maxtime")
     nontrivial = acc >= 2
 
+    # ---- an Optimization that has been used before behaves like a newly built identical one (same seed, same inputs)
+    if shared is not None and shared["step"] >= 1:
+        again = _run_optimize(at, case, P, ps, pg, inst, meas, record=False)
+        if again["outcome"] != "ok" or _alloc_table(again["out"]) != after:
+            raise Violation(ID, "reused-optimization-differs-from-fresh", "call %d on the same Optimization object returned %r, a newly built identical Optimization returns %r; %s" % (shared["step"] + 1, after, again.get("exc") or _alloc_table(again["out"]), desc))
+        labels.append("reused==fresh")
+
     # ---- (3) fault enumeration
     if kind == "optimize-fault":
         reached = 0
@@ -760,6 +789,33 @@ def _check_optimize(case):
         _state_check(snap0, P, objs, "after the run following the fault sequence", desc)
         labels.append("fault-points:%d" % reached)
         return {"nontrivial": nontrivial or reached >= 1, "labels": labels, "inconclusive": {}, "fault_points": reached}
+    return {"nontrivial": nontrivial, "labels": labels}
+
+
+def _scaled_alloc(c, alloc, start_year, f):
+    """the allocation spec with every spending value multiplied by f (ProgramInstructions.scale_alloc); implicit program book spending becomes an explicit allocation"""
+    if alloc["mode"] in ("progset", "none"):
+        return {"mode": "dict", "vals": {p: [[start_year], [v * f]] for p, v in c["progs"]}}
+    return {"mode": alloc["mode"], "vals": {p: [list(tv[0]), [v * f for v in tv[1]]] for p, tv in alloc["vals"].items()}}
+
+
+def _check_sequence(case):
+    c = H.catalogue()[case["model"]]
+    shared = {"step": 0, "opt": None, "meas": None}
+    labels, nontrivial, prev = ["kind:optimize-sequence", "calls:%d" % (1 + len(case["steps"]))], False, None
+    for i, step in enumerate([None] + list(case["steps"])):
+        sub = dict(case, kind="optimize")
+        if step is not None:
+            sub["alloc"] = _scaled_alloc(c, case["alloc"], case["start_year"], float(step["scale"])) if "scale" in step else step["alloc"]
+        shared["step"] = i
+        start = [r["cur"] for r in _rows_pure(c, sub)]
+        r = _check_optimize(sub, shared)
+        labels += [l for l in r["labels"] if not l.startswith("kind:")]
+        if prev is not None and start != prev and "outcome:ok" in r["labels"]:
+            labels.append("later-call-with-other-start-spend")
+            nontrivial = True
+        nontrivial = nontrivial or r["nontrivial"]
+        prev = start
     return {"nontrivial": nontrivial, "labels": labels}
 
 
@@ -1090,6 +1146,8 @@ def check(case):
     with np.errstate(all="ignore"):
         if kind in ("optimize", "optimize-fault", "unresolvable"):
             return _check_optimize(case)
+        if kind == "optimize-sequence":
+            return _check_sequence(case)
         if kind in ("calibrate", "calibrate-fault"):
             return _check_calibrate(case)
         if kind == "reconcile":
